@@ -12,6 +12,7 @@ import (
 	"net"
 	"os"
 	"reflect"
+	"runtime/debug"
 	"testing"
 	"time"
 	"unicode/utf8"
@@ -569,7 +570,11 @@ func verifC13Sizes(b int) []int {
 	s := []int{0, 1, 125, 126, 127, 65535, 65536, 65537, b - 1, b, b + 1, 2 * b, 2*b + 1, 2*b + 15, 3 * b, 2*b + 27, 2*b + 28, 2*b + 29, 3*b + 42}
 	var out []int
 	for _, v := range s {
-		if v >= 0 {
+		dup := false
+		for _, o := range out {
+			dup = dup || o == v
+		}
+		if v >= 0 && !dup {
 			out = append(out, v)
 		}
 	}
@@ -703,44 +708,18 @@ func verifC13BufClass(b int) string {
 func TestVerif_C13_Mem(t *testing.T) {
 	m := mon.New("C13", "mem")
 	defer m.Finish(t)
+	quick := m.Quick()
+	// fewer GC cycles: the library's flate writer pools (~1 MB per writer) are emptied by every cycle; performance only
+	defer debug.SetGCPercent(debug.SetGCPercent(800))
 	m.Rule("in-memory client/server Conn pairs (newConn) over a recording pipe. grid: write buffer b in {1,256,1024,4096,65536} x compression {off, levels -2..9} x write API " +
 		"{WriteMessage, NextWriter+Write, io.WriteString, io.Copy/ReadFrom, PreparedMessage shared by both conns, WriteJSON} x every size in {0,1,125,126,127,65535,65536,65537," +
-		"b-1,b,b+1,2b,2b+1,2b+15,3b,2b+27..2b+29,3b+42} in both directions (+ 1 MiB / 4 MiB for b>=1024); partitions: all 2-partitions of selected sizes; random sessions: 6..14 " +
+		"b-1,b,b+1,2b,2b+1,2b+15,3b,2b+27..2b+29,3b+42} in both directions, + 1 MiB / 4 MiB messages for b>=1024 (quick tier prunes: b=65536 only with compression off/-2/0/1/9, " +
+		"the 64 KiB classes at b=1 only for two configurations, six multi-megabyte sessions); partitions: all 2-partitions of selected sizes; random sessions: 6..14 " +
 		"messages, random API/size/k-partition/reader (ReadMessage, NextReader with 1..70000-byte reads, ReadJSON), EnableWriteCompression and level toggled between messages, " +
 		"pings, closing handshake, transport read segmentation; plus maskBytes on every alignment 0..15 x length 0..96 x position 0..3 of a guarded buffer. " +
 		"distinct = role x API x buffer class x compression x size class x size-vs-buffer x partition count x reader API")
 	levels := []int{-2, -1, 0, 1, 2, 3, 4, 5, 6, 7, 8, 9}
 	bufs := []int{1, 256, 1024, 4096, 65536}
-
-	// ---- (0) masking with canaries
-	verifC13MaskSweep(m)
-
-	// ---- (1) grid
-	type gridJob struct {
-		b     int
-		comp  bool
-		level int
-		api   string
-		big   int
-	}
-	var grid []gridJob
-	for _, b := range bufs {
-		for li := -1; li < len(levels); li++ {
-			for _, api := range verifC13APIs {
-				j := gridJob{b: b, api: api}
-				if li >= 0 {
-					j.comp, j.level = true, levels[li]
-				}
-				grid = append(grid, j)
-			}
-		}
-	}
-	for _, b := range []int{1024, 4096, 65536} { // multi-megabyte messages
-		for _, api := range []string{"WriteMessage", "NextWriter", "ReadFrom", "Prepared"} {
-			grid = append(grid, gridJob{b: b, api: api, big: 1 << 20}, gridJob{b: b, api: api, comp: true, level: 1, big: 1 << 20})
-		}
-		grid = append(grid, gridJob{b: b, api: "WriteMessage", big: 4 << 20}, gridJob{b: b, api: "NextWriter", comp: true, level: -2, big: 4 << 20})
-	}
 	m.Require("api_WriteMessage", 500)
 	m.Require("api_NextWriter", 500)
 	m.Require("api_WriteString", 500)
@@ -758,52 +737,94 @@ func TestVerif_C13_Mem(t *testing.T) {
 	m.Require("messages_fragmented", 1000)
 	m.Require("two_partitions", 2000)
 	m.Require("mask_cases", 10000)
+	m.Require("megabyte_messages", 8)
 	m.Require("sessions", int64(m.N(3000, 150000)))
-	phase := os.Getenv("VERIF_C13_DEBUG_PHASE") // profiling aid only
-	if phase != "" && phase != "grid" {
-		grid = nil
+
+	// ---- (0) masking with canaries
+	verifC13MaskSweep(m)
+
+	var jobs []func() // longest first, so that the tail of the run is made of short sessions
+
+	// ---- (1) grid
+	type gridJob struct {
+		b     int
+		comp  bool
+		level int
+		api   string
+		big   int
 	}
-	mon.Parallel(len(grid), func(w, gi int) {
-		g := grid[gi]
-		t0 := time.Now()
-		defer func() {
-			if phase != "" {
-				fmt.Printf("GRID %+v %.2fs\n", g, time.Since(t0).Seconds())
+	var grid []gridJob
+	if quick {
+		grid = append(grid,
+			gridJob{b: 65536, api: "WriteMessage", big: 4 << 20}, gridJob{b: 4096, api: "NextWriter", big: 4 << 20},
+			gridJob{b: 4096, api: "WriteMessage", big: 1 << 20}, gridJob{b: 1024, api: "NextWriter", comp: true, level: 1, big: 1 << 20},
+			gridJob{b: 65536, api: "ReadFrom", big: 1 << 20}, gridJob{b: 4096, api: "Prepared", comp: true, level: 1, big: 1 << 20})
+	} else {
+		for _, b := range []int{1024, 4096, 65536} { // multi-megabyte messages
+			grid = append(grid, gridJob{b: b, api: "WriteMessage", big: 4 << 20}, gridJob{b: b, api: "NextWriter", comp: true, level: -2, big: 4 << 20})
+			for _, api := range []string{"WriteMessage", "NextWriter", "ReadFrom", "Prepared"} {
+				grid = append(grid, gridJob{b: b, api: api, big: 1 << 20}, gridJob{b: b, api: api, comp: true, level: 1, big: 1 << 20})
 			}
-		}()
-		r := m.Rand("grid", gi)
-		cfg := verifC13Cfg{comp: g.comp, wbufC: g.b, wbufS: g.b, rbufC: r.Pick(125, 256, 1024, 4096), rbufS: r.Pick(125, 256, 1024, 4096), label: "grid"}
-		var ops []verifC13Op
-		sizes := verifC13Sizes(g.b)
-		if g.big > 0 {
-			sizes = []int{g.big, g.big + 1}
 		}
-		for _, n := range sizes {
-			if g.b == 1 && n > 40000 && g.api != "WriteMessage" && g.api != "NextWriter" {
-				continue // one-byte frames: keep the 64 KiB classes for two APIs only (65537 transport writes each)
+	}
+	for bi := len(bufs) - 1; bi >= 0; bi-- {
+		b := bufs[bi]
+		for li := -1; li < len(levels); li++ {
+			if quick && b == 65536 && li >= 0 && levels[li] != -2 && levels[li] != 0 && levels[li] != 1 && levels[li] != 9 {
+				continue
 			}
-			for _, fc := range []bool{true, false} {
-				if g.api == "Prepared" && !fc {
-					continue // Prepared already goes both ways
+			for _, api := range verifC13APIs {
+				j := gridJob{b: b, api: api}
+				if li >= 0 {
+					j.comp, j.level = true, levels[li]
 				}
-				ops = append(ops, verifC13MakeOp(r, fc, g.api, n, g.b))
+				grid = append(grid, j)
 			}
 		}
-		rep := map[string]interface{}{"part": "grid", "job": gi}
-		p := verifC13NewPair(m, cfg, rep)
-		if g.comp {
-			p.cl.c.SetCompressionLevel(g.level)
-			p.sv.c.SetCompressionLevel(g.level)
-			rep["level"] = g.level
-		}
-		m.Case()
-		m.Count("sessions", 1)
-		verifC13Count(m, ops, cfg)
-		m.Guard("ws.session", nil, func() {
-			p.run(ops, func() int { return r.Range(1, 3) })
-			p.check()
+	}
+	for gi := range grid {
+		g, gi := grid[gi], gi
+		jobs = append(jobs, func() {
+			r := m.Rand("grid", gi)
+			cfg := verifC13Cfg{comp: g.comp, wbufC: g.b, wbufS: g.b, rbufC: r.Pick(125, 256, 1024, 4096), rbufS: r.Pick(125, 256, 1024, 4096), label: "grid"}
+			var ops []verifC13Op
+			sizes := verifC13Sizes(g.b)
+			if g.big > 0 {
+				sizes = []int{g.big + gi%2}
+				m.Count("megabyte_messages", 2)
+			}
+			for _, n := range sizes {
+				if g.b == 1 && n > 40000 {
+					// one-byte frames: 65537 transport writes per message.  Thorough: two APIs; quick: two configurations.
+					if g.api != "WriteMessage" && g.api != "NextWriter" {
+						continue
+					}
+					if quick && !((g.api == "WriteMessage" && !g.comp) || (g.api == "NextWriter" && g.comp && g.level == 1)) {
+						continue
+					}
+				}
+				for _, fc := range []bool{true, false} {
+					if g.api == "Prepared" && !fc {
+						continue // Prepared already goes both ways
+					}
+					ops = append(ops, verifC13MakeOp(r, fc, g.api, n, g.b))
+				}
+			}
+			rep := map[string]interface{}{"part": "grid", "job": gi, "grid": fmt.Sprintf("%+v", g)}
+			p := verifC13NewPair(m, cfg, rep)
+			if g.comp {
+				p.cl.c.SetCompressionLevel(g.level)
+				p.sv.c.SetCompressionLevel(g.level)
+			}
+			m.Case()
+			m.Count("sessions", 1)
+			verifC13Count(m, ops, cfg)
+			m.Guard("ws.session", nil, func() {
+				p.run(ops, func() int { return r.Range(1, 3) })
+				p.check()
+			})
 		})
-	})
+	}
 
 	// ---- (2) all 2-partitions of selected sizes
 	type partJob struct {
@@ -812,9 +833,9 @@ func TestVerif_C13_Mem(t *testing.T) {
 		fromClient bool
 		api        string
 	}
-	var parts []partJob
-	for _, b := range []int{1, 16, 256} {
-		for _, n := range []int{b + 1, 2*b + 15, 2*b + 29, 3*b + 43} {
+	parts := []partJob{{1024, 2*1024 + 30, false, false, "NextWriter"}, {1024, 2*1024 + 30, false, true, "WriteString"}, {4096, 4096 + 200, true, true, "NextWriter"}}
+	for _, b := range []int{256, 16, 1} {
+		for _, n := range []int{3*b + 43, 2*b + 29, 2*b + 15, b + 1} {
 			for _, comp := range []bool{false, true} {
 				for _, fc := range []bool{true, false} {
 					parts = append(parts, partJob{b, n, comp, fc, "NextWriter"})
@@ -822,112 +843,121 @@ func TestVerif_C13_Mem(t *testing.T) {
 			}
 		}
 	}
-	parts = append(parts, partJob{1024, 2*1024 + 30, false, false, "NextWriter"}, partJob{1024, 2*1024 + 30, false, true, "WriteString"}, partJob{4096, 4096 + 200, true, true, "NextWriter"})
-	if phase != "" && phase != "parts" {
-		parts = nil
-	}
-	mon.Parallel(len(parts), func(w, pi int) {
-		j := parts[pi]
-		r := m.Rand("parts", pi)
-		cfg := verifC13Cfg{comp: j.comp, wbufC: j.b, wbufS: j.b, rbufC: 256, rbufS: 256, label: "partitions"}
-		rep := map[string]interface{}{"part": "partitions", "job": pi, "n": j.n}
-		p := verifC13NewPair(m, cfg, rep)
-		var ops []verifC13Op
-		step := 1
-		if j.n > 1200 {
-			step = 7 // bounded: every 7th split point plus the ones around the buffer edges
-		}
-		for i := 0; i <= j.n; i++ {
-			if step > 1 && i%step != 0 && !(i <= 2 || i >= j.n-2 || (i >= j.b-2 && i <= j.b+30) || (i >= 2*j.b+26 && i <= 2*j.b+30)) {
-				continue
+	for pi := range parts {
+		j, pi := parts[pi], pi
+		jobs = append(jobs, func() {
+			r := m.Rand("parts", pi)
+			cfg := verifC13Cfg{comp: j.comp, wbufC: j.b, wbufS: j.b, rbufC: 256, rbufS: 256, label: "partitions"}
+			rep := map[string]interface{}{"part": "partitions", "job": pi, "n": j.n}
+			p := verifC13NewPair(m, cfg, rep)
+			var ops []verifC13Op
+			step := 1
+			if j.n > 1200 {
+				step = 7 // bounded: every 7th split point plus the ones around the buffer edges
 			}
-			op := verifC13MakeOp(r, j.fromClient, j.api, j.n, j.b)
-			op.parts = []int{i}
-			ops = append(ops, op)
-		}
-		m.Case()
-		m.Count("sessions", 1)
-		m.Count("two_partitions", int64(len(ops)))
-		verifC13Count(m, ops, cfg)
-		m.Guard("ws.session", nil, func() {
-			p.run(ops, func() int { return 2 })
-			p.check()
+			for i := 0; i <= j.n; i++ {
+				if step > 1 && i%step != 0 && !(i <= 2 || i >= j.n-2 || (i >= j.b-2 && i <= j.b+30) || (i >= 2*j.b+26 && i <= 2*j.b+30)) {
+					continue
+				}
+				op := verifC13MakeOp(r, j.fromClient, j.api, j.n, j.b)
+				op.parts = []int{i}
+				ops = append(ops, op)
+			}
+			m.Case()
+			m.Count("sessions", 1)
+			m.Count("two_partitions", int64(len(ops)))
+			verifC13Count(m, ops, cfg)
+			m.Guard("ws.session", nil, func() {
+				p.run(ops, func() int { return 2 })
+				p.check()
+			})
 		})
-	})
+	}
 
 	// ---- (3) random sessions
-	n := m.N(3000, 150000) - len(grid) - len(parts)
-	if phase != "" && phase != "random" {
-		n = 0
-	}
-	mon.Parallel(n, func(w, si int) {
-		r := m.Rand("session", si)
-		pickB := func() int {
-			switch r.Intn(8) {
-			case 0:
-				return 1
-			case 1:
-				return r.Range(2, 40)
-			}
-			return r.Pick(256, 1024, 4096, 65536, r.Range(41, 5000))
-		}
-		cfg := verifC13Cfg{comp: r.Chance(3, 5), wbufC: pickB(), wbufS: pickB(), rbufC: r.Pick(1, 125, 256, 1024, 4096, 65536), rbufS: r.Pick(1, 125, 256, 1024, 4096, 65536),
-			maxReadC: r.Pick(0, 0, 1, 3, 100), maxRdS: r.Pick(0, 0, 1, 3, 100), closeAtEnd: r.Bool(), label: "random"}
-		rep := map[string]interface{}{"part": "sessions", "session": si}
-		p := verifC13NewPair(m, cfg, rep)
-		if cfg.comp {
-			p.cl.c.SetCompressionLevel(levels[r.Intn(len(levels))])
-			p.sv.c.SetCompressionLevel(levels[r.Intn(len(levels))])
-		}
-		nops := r.Range(6, 14)
-		ops := make([]verifC13Op, 0, nops)
-		bigLeft := 1
-		for k := 0; k < nops; k++ {
-			fc := r.Bool()
-			b := cfg.wbufS
-			if fc {
-				b = cfg.wbufC
-			}
-			var size int
-			switch r.Intn(4) {
-			case 0:
-				sz := verifC13Sizes(b)
-				size = sz[r.Intn(len(sz))]
-			case 1:
-				size = r.Range(0, 300)
-			case 2:
-				size = r.Range(0, 3*b+100)
-			default:
-				size = r.Pick(0, 1, 124, 125, 126, 127, 128, 65534, 65535, 65536, 65537)
-			}
-			if size > 20000 {
-				if bigLeft == 0 || b < 16 {
-					size = r.Range(0, 2000)
-				} else {
-					bigLeft--
+	n := m.N(3000, 150000) - len(jobs)
+	for si := 0; si < n; si++ {
+		si := si
+		jobs = append(jobs, func() {
+			r := m.Rand("session", si)
+			pickB := func() int {
+				switch r.Intn(8) {
+				case 0:
+					return 1
+				case 1:
+					return r.Range(2, 40)
 				}
+				return r.Pick(256, 1024, 4096, 65536, r.Range(41, 5000))
 			}
-			op := verifC13MakeOp(r, fc, verifC13APIs[r.Intn(len(verifC13APIs))], size, b)
-			if cfg.comp && r.Chance(1, 3) {
-				op.setCompress = r.Intn(2)
+			cfg := verifC13Cfg{comp: r.Chance(3, 5), wbufC: pickB(), wbufS: pickB(), rbufC: r.Pick(1, 125, 256, 1024, 4096, 65536), rbufS: r.Pick(1, 125, 256, 1024, 4096, 65536),
+				maxReadC: r.Pick(0, 0, 1, 3, 100), maxRdS: r.Pick(0, 0, 1, 3, 100), closeAtEnd: r.Bool(), label: "random"}
+			rep := map[string]interface{}{"part": "sessions", "session": si}
+			p := verifC13NewPair(m, cfg, rep)
+			if cfg.comp {
+				p.cl.c.SetCompressionLevel(levels[r.Intn(len(levels))])
+				p.sv.c.SetCompressionLevel(levels[r.Intn(len(levels))])
 			}
-			if cfg.comp && r.Chance(1, 4) {
-				op.setLevel = levels[r.Intn(len(levels))]
+			nops := r.Range(6, 14)
+			ops := make([]verifC13Op, 0, nops)
+			bigLeft := 0
+			if r.Chance(1, 4) {
+				bigLeft = 1 // one message above 20 000 bytes in a quarter of the sessions
 			}
-			if r.Chance(1, 6) {
-				op.ping = r.Bytes(r.Pick(0, 1, 5, 125, r.Intn(126)))
+			for k := 0; k < nops; k++ {
+				fc := r.Bool()
+				b := cfg.wbufS
+				if fc {
+					b = cfg.wbufC
+				}
+				var size int
+				switch r.Intn(4) {
+				case 0:
+					sz := verifC13Sizes(b)
+					size = sz[r.Intn(len(sz))]
+				case 1:
+					size = r.Range(0, 300)
+				case 2:
+					size = r.Range(0, 3*b+100)
+				default:
+					size = r.Pick(0, 1, 124, 125, 126, 127, 128, 65534, 65535, 65536, 65537)
+				}
+				if size > 20000 {
+					if bigLeft == 0 || b < 16 {
+						size = r.Range(0, 2000)
+					} else {
+						bigLeft--
+					}
+				}
+				op := verifC13MakeOp(r, fc, verifC13APIs[r.Intn(len(verifC13APIs))], size, b)
+				if cfg.comp && r.Chance(1, 3) {
+					op.setCompress = r.Intn(2)
+				}
+				if cfg.comp && r.Chance(1, 4) {
+					op.setLevel = levels[r.Intn(len(levels))]
+				}
+				if r.Chance(1, 6) {
+					op.ping = r.Bytes(r.Pick(0, 1, 5, 125, r.Intn(126)))
+				}
+				ops = append(ops, op)
 			}
-			ops = append(ops, op)
-		}
-		m.Case()
-		m.Count("sessions", 1)
-		verifC13Count(m, ops, cfg)
-		m.Guard("ws.session", nil, func() {
-			p.run(ops, func() int { return r.Range(1, 3) })
-			p.check()
+			m.Case()
+			m.Count("sessions", 1)
+			verifC13Count(m, ops, cfg)
+			m.Guard("ws.session", nil, func() {
+				p.run(ops, func() int { return r.Range(1, 3) })
+				p.check()
+			})
+			if m.WantSample() && !p.failed {
+				m.Sample(map[string]interface{}{"config": fmt.Sprintf("%+v", cfg), "ops": p.opLog, "c2s_bytes": len(p.c2s.log), "s2c_bytes": len(p.s2c.log)})
+			}
 		})
-		if m.WantSample() && !p.failed {
-			m.Sample(map[string]interface{}{"config": fmt.Sprintf("%+v", cfg), "ops": p.opLog, "c2s_bytes": len(p.c2s.log), "s2c_bytes": len(p.s2c.log)})
+	}
+	dbg := os.Getenv("VERIF_C13_DEBUG_TIMES") != "" // profiling aid only; never part of a verdict
+	mon.Parallel(len(jobs), func(w, i int) {
+		t0 := time.Now()
+		jobs[i]()
+		if dbg {
+			fmt.Printf("JOB %d grid=%d parts=%d %.2f\n", i, len(grid), len(parts), time.Since(t0).Seconds())
 		}
 	})
 }
